@@ -186,6 +186,10 @@ def check(c):
              isinstance(loop, ast.For) and norm(loop.iter) ==
              'itask.state.prerequisites_get_target_points()',
              c.where(r, st), '')
+    # no task beyond the stop point is released to run: the runahead limit is
+    # capped at the stop point (after the future-offset extension)
+    from rules._shared import stop_point_limit_rules
+    stop_point_limit_rules(c, 'C07')
     ssp = c.func(TP, 'TaskPool.set_stop_point')
     rl = c.find(ssp, 'itask.state_reset(is_runahead=True)')
     c.floor('C07.stop-point', 're-limit in set_stop_point', len(rl), 1)
